@@ -23,6 +23,9 @@ func verifC09Bounds() (maxN, k, maxLen int) {
 // completed) against the reference object, the source stream and the callback.
 func verifCheckOutcome(ref *verifRef, streamed []byte, srcErrored bool, off int, got []byte, err error, integ *verifIntegrity, backend bool) {
 	matches := verifBytesEqual(streamed, ref.data)
+	if ref.bogus {
+		matches = false // the digest's hash is the hash of no content
+	}
 	if err == nil {
 		vnd.Cover("completed")
 		vnd.Assert(matches, "consumer observed completion although the source content differs from the digest's content")
@@ -30,7 +33,7 @@ func verifCheckOutcome(ref *verifRef, streamed []byte, srcErrored bool, off int,
 			// "complete content": what the source HOLDS, whether or not the buffer chose to read it
 			full, fails := verifFullContent(verifLastScript)
 			vnd.Assert(!fails, "consumer observed completion although the source fails before its end of stream")
-			vnd.Assert(verifBytesEqual(full, ref.data), "consumer observed completion although the complete content of the source differs from the digest's content (unread data)")
+			vnd.Assert(!ref.bogus && verifBytesEqual(full, ref.data), "consumer observed completion although the complete content of the source differs from the digest's content (unread data)")
 		}
 		vnd.Assert(off >= 0 && off <= ref.n, "completed read at an offset outside the object")
 		if off >= 0 && off <= ref.n {
@@ -67,7 +70,7 @@ func verifSource(backend bool, integ *verifIntegrity) Source {
 // Verif_C09_V1_ReaderToByteSlice: reader-backed CAS buffer consumed as a whole.
 func Verif_C09_V1_ReaderToByteSlice() {
 	maxN, k, maxLen := verifC09Bounds()
-	ref := verifNewRef(vnd.Choose(maxN + 1))
+	ref := verifNewRefKind(vnd.Choose(maxN+1), vnd.Choose(2) == 1)
 	src := &verifReader{script: verifScript(k, maxLen)}
 	backend := vnd.Choose(2) == 1
 	integ := &verifIntegrity{}
